@@ -27,6 +27,7 @@ cdef core_helpers.MarkerObject _none
 cdef class FutureBase(object):
     cdef public object _value
     cdef public object _error
+    cdef public object _error_traceback
     cdef bint _in_repr
     cdef public core_events.EventHook on_computed
 
